@@ -35,7 +35,7 @@ Do not touch test files, do not add build tags, do not change files named verif_
 
 The following ideas have ALREADY been used for this property; yours must be a different mechanism in a different part of the code (not a variation of one of these):
 {chr(10).join(used)}
-These slips have been used (several times) for OTHER properties of the same library and are not wanted again either: bufio.Reader.Read instead of io.ReadFull in readFramePayload/readFrameHeader; `defer mw.mu.unlock()` in msgWriter.Close; dropping the Clone of DialOptions.HTTPHeader; `payloadLength -= len(p)` instead of n; RSV1 carried over to control frames through the shared header; forceLock replaced by tryLock / dropped in msgWriter.close or msgReader.close; the masking key drawn before the frame lock; a shared package-level compressionOptions / key buffer; returning before unmasking on a failed read; closeFrameSent checked or set outside the frame lock; moving msgWriter.close before rwc.Close in Conn.close; timeoutLoop storing the write context in the read slot; netConn.read dropping bytes that arrive together with io.EOF; the ping payload built in a shared scratch buffer; the write timeout armed before the frame lock is taken; the buffered bytes of the hijacked reader dropped in accept; removing the reset of limitReader.r after a compressed message; an unchecked error of a header read in readFrameHeader.
+These slips have been used (several times) for OTHER properties of the same library and are not wanted again either: bufio.Reader.Read instead of io.ReadFull in readFramePayload/readFrameHeader; `defer mw.mu.unlock()` in msgWriter.Close; dropping the Clone of DialOptions.HTTPHeader; `payloadLength -= len(p)` instead of n; RSV1 carried over to control frames through the shared header; forceLock replaced by tryLock / dropped in msgWriter.close or msgReader.close; the masking key drawn before the frame lock; a shared package-level compressionOptions / key buffer; returning before unmasking on a failed read; closeFrameSent checked or set outside the frame lock; moving msgWriter.close before rwc.Close in Conn.close; timeoutLoop storing the write context in the read slot; netConn.read dropping bytes that arrive together with io.EOF; the ping payload built in a shared scratch buffer; the write timeout armed before the frame lock is taken; the buffered bytes of the hijacked reader dropped in accept; removing the reset of limitReader.r after a compressed message; an unchecked error of a header read in readFrameHeader; 'defer c.writeFrameMu.unlock()' moved above the error check of the lock attempt in writeFrame; the guard of the inflate-window update in msgReader.Read reduced to 'mr.dict != nil'; opContinuation missing from the opcodes refused after a close frame; a package-level put function called instead of the method that also clears the field (putFlateReader / putFlateWriter); the write timeout armed or disarmed at a different point of writeFrame (after the header, before the flush, only for non-empty payloads).
 {('Suggested region to look at first (only a suggestion; these functions have hardly been touched so far): ' + hint) if hint else ''}
 
 DELIVERABLES, all in /tmp/mut/{nid}.out/ :
